@@ -119,7 +119,10 @@ def check_quadrature(chk, F, cls, f, Kc):
     st = I.effects
     okz = any(e.target.endswith("explicit_time_grad_buffer") and e.op == "setZero" for e in st)
     chk.ob("C07-R1", "%s%s explicit-time buffer is zeroed before the quadrature" % (cls, inst), okz, loc(f), "", construct="%s/quad%s/explicit-zero" % (cls, inst))
-    # suffix accumulation: dS_i/dT_j = 1 for j < i
+    # suffix accumulation: dS_i/dT_j = 1 for j < i, i.e. dT[k] += sum of e[m] over m = k+1 .. N-1 for k = 0 .. N-2.
+    # Read off the loop as it is written: a descending index iv, an accumulator acc += e[iv + a], a write
+    # dT[iv + b] += (acc after the update | acc before the update); any spelling of these offsets is fine as long as
+    # the sums and the range of k come out right.  A loop of another shape is not understood (analysis-broken).
     oks = Lsuffix is not None
     det = ""
     if oks:
@@ -127,13 +130,20 @@ def check_quadrature(chk, F, cls, f, Kc):
         acc = next(iter(Lsuffix.carried.items()), None)
         ea = [e for e in Lsuffix.effects if e.target.startswith("$")]
         eg = [e for e in Lsuffix.effects if e.target == gdT]
-        oks = acc is not None and acc[1][1] == 0 and len(ea) == 1 and ea[0].op == "+=" and len(eg) == 1 and eg[0].op == "+="
-        if oks:
-            ex = list(sp.sympify(ea[0].delta).atoms(sp.Indexed))
-            oks = (len(ex) == 1 and str(ex[0].base).split("#")[0].endswith("explicit_time_grad_buffer") and sym.is_zero(ex[0].indices[0] - iv) and sym.is_zero(ea[0].delta - ex[0])
-                   and sym.is_zero(eg[0].key[0] - (iv - 1)) and sym.is_zero(eg[0].delta - (acc[1][0] + ex[0]))
-                   and sym.is_zero(Lsuffix.lo - (n - 1)) and Lsuffix.hi == 0 and Lsuffix.cond_op == ">" and Lsuffix.step == -1)
-            det = "acc += e[%s]; dT[%s] += acc; i from %s while i %s %s" % (iv, eg[0].key[0], Lsuffix.lo, Lsuffix.cond_op, Lsuffix.hi)
+        if not (acc is not None and len(Lsuffix.carried) == 1 and len(ea) == 1 and ea[0].op == "+=" and len(eg) == 1 and eg[0].op == "+=" and Lsuffix.step == -1 and Lsuffix.cond_op in (">", ">=") and Lsuffix.hi is not None):
+            raise Broken("suffix loop of the explicit-time terms has an unexpected shape (accumulators %s, stores %s)" % (list(Lsuffix.carried), [e.target for e in Lsuffix.effects]))
+        ex = list(sp.sympify(ea[0].delta).atoms(sp.Indexed))
+        if not (len(ex) == 1 and str(ex[0].base).split("#")[0].endswith("explicit_time_grad_buffer") and sym.is_zero(ea[0].delta - ex[0])):
+            raise Broken("suffix loop accumulates %s, not one element of the explicit-time buffer" % ea[0].delta)
+        a_off = sp.expand(ex[0].indices[0] - iv)
+        b_off = sp.expand(eg[0].key[0] - iv)
+        last = Lsuffix.hi + 1 if Lsuffix.cond_op == ">" else Lsuffix.hi
+        after = sym.is_zero(eg[0].delta - (acc[1][0] + ex[0]))
+        before = sym.is_zero(eg[0].delta - acc[1][0])
+        if not (a_off.is_Integer and b_off.is_Integer and (after or before)):
+            raise Broken("suffix loop adds %s to dT[%s]: not the running sum" % (eg[0].delta, eg[0].key[0]))
+        oks = (acc[1][1] == 0 and sym.is_zero(a_off - (b_off + (1 if after else 0))) and sym.is_zero(Lsuffix.lo + a_off - (n - 1)) and sym.is_zero(last + b_off))
+        det = "acc += e[%s]; dT[%s] += acc (%s the update); %s from %s down to %s" % (ex[0].indices[0], eg[0].key[0], "after" if after else "before", iv, Lsuffix.lo, last)
     chk.ob("C07-R1", "%s%s explicit-time terms of segment i are added to the durations of all earlier segments (suffix sum, segment i itself excluded)" % (cls, inst), bool(oks), loc(f), det,
            construct="%s/quad%s/suffix" % (cls, inst))
 
